@@ -168,15 +168,19 @@ class Lab:
             t = tags[j]
             if not tlv and t > 255 and r.random() < 0.5:
                 t = r.choice([x for x in range(1, 255) if x not in (0x1f, 0xff) and x not in tags])
-            rt, tj, ln, enc, exact = self.field_type(depth, False, False, "tlv" if tlv else "bmp")
-            if not tlv and ln == "empty" and not (tj["k"] == "int" and enc in ("dflt", "be")):
+            # the LAST field of a struct may be a tagged bmp field without length prefix whose encoding takes "all the rest"
+            # (BCD number, text): written as the bare number followed by the payload — possibly by nothing (0, empty text)
+            greedy_last = (not tlv) and j == n_tagged - 1 and r.random() < 0.2
+            rt, tj, ln, enc, exact = self.field_type(depth, False, greedy_last, "tlv" if tlv else "bmp")
+            if not tlv and ln == "empty" and not (tj["k"] == "int" and enc in ("dflt", "be")) and not (greedy_last and tj["k"] in ("int", "str")):
                 ln = "tlv"
             w = r.random()
             if self.tag_heavy:
                 w = 0.3 + 0.7 * w      # more mandatory fields
             if w < 0.45:
                 rt, tj = self.opt(rt), {"k": "opt", "t": tj}
-            elif w < 0.65:
+            elif w < 0.65 and not (greedy_last and ln == "empty" and not (tj["k"] == "int" and enc in ("dflt", "be"))):
+                # (no Vec around a field that takes all the rest: its first element would swallow the following ones)
                 rt, tj = self.vec(rt), {"k": "vec", "t": tj}
             fields.append({"name": f"f{n_pos + j}", "rust_ty": rt, "ty": tj, "tag": t, "tag_src": "tlv" if tlv else "bmp", "length": ln, "encoding": enc})
         ctrl = None
